@@ -97,6 +97,7 @@ class Worker:
 
     def start(self, frm):
         self.gen += 1
+        self.proc_lo = frm
         self.out = os.path.join(self.logdir, "w%d.%d.jsonl" % (self.wid, self.gen))
         self.err = os.path.join(self.logdir, "w%d.%d.stderr" % (self.wid, self.gen))
         for p in (self.out, self.err):
@@ -162,9 +163,11 @@ class Worker:
                     elif t == "end":
                         if self.wid >= 100:
                             d["race"] = True
-                        d["_seq"] = (self.base, self.lo, self.stride)
+                        d["_seq"] = (self.base, self.proc_lo, self.stride)
                         self.results.append(d)
                         self.open_idx = None
+                    elif t == "recycle":
+                        self.recycle_next = d["next"]
                     elif t == "done":
                         self.done = True
                     elif t == "infra":
@@ -486,6 +489,7 @@ def match_known(known, res, sc):
 
 def selftest_determinism(prop, n=300):
     """same seeds, different process partitionings and positions: every digest and verdict must agree"""
+    use_scratch_tmp("selftest-" + prop)
     cfg = props.get(prop)
     build()
     ensure_template()
@@ -536,6 +540,7 @@ def main():
         infra("unknown property " + prop)
     seed = int(os.environ.get("VERIF_SEED", "1") or "1")
     t0 = time.time()
+    use_scratch_tmp("%s-%s" % (prop, tier))
     build_s = build()
     ensure_template()
     use_race = cfg.get("race") and tier in cfg.get("race_tiers", ("quick", "thorough"))
@@ -643,6 +648,16 @@ def main():
                         w.done = True
             else:
                 w.poll()
+                if not w.done and w.open_idx is None and getattr(w, "recycle_next", None) is not None:
+                    # the worker retired itself (run count / memory): continue in a fresh process
+                    nxt, w.recycle_next = w.recycle_next, None
+                    w.recycled = getattr(w, "recycled", 0) + 1
+                    if nxt < w.hi:
+                        w.start(nxt)
+                        alive = True
+                    else:
+                        w.done = True
+                    continue
                 if not w.done:
                     if w.open_idx is None:
                         infra("worker %d exited rc=%s outside a run:\n%s" % (w.wid, rc, w.stderr_tail(3000)))
@@ -814,6 +829,17 @@ def main():
 
 UNATTRIBUTED = []
 
+def use_scratch_tmp(tag):
+    """every temporary file of this invocation (worker data dirs, per-run directories, single-run scratch) lives
+    under one directory below the build dir, which is removed when the driver exits - also after kills"""
+    import atexit
+    d = os.path.join(BUILD, "tmp-%s-%d" % (tag, os.getpid()))
+    shutil.rmtree(d, ignore_errors=True)
+    os.makedirs(d, exist_ok=True)
+    os.environ["TMPDIR"] = d
+    tempfile.tempdir = d
+    atexit.register(lambda: (_kill_children(), shutil.rmtree(d, ignore_errors=True)))
+
 def emit_scenarios(prop, tier, base, frm, to, stride, binpath, extra_env):
     """the scenarios a worker generated for indices frm, frm+stride, ... < to"""
     d = tempfile.mkdtemp(prefix="htsim-emit-")
@@ -916,6 +942,7 @@ def write_evidence(prop, tier, seed, cfg, results, died, known, known_hits, repo
 def replay_cmd(path):
     data = json.load(open(path))
     prop = data["property"]
+    use_scratch_tmp("replay")
     build()
     ensure_template()
     race = data.get("race")
